@@ -1,4 +1,4 @@
-import Proofs.Lemmas.ParserLags
+import Proofs.Lemmas.ParserUnique
 import FsicModel.Solver
 /-
 C03 — Variable classification, ordering and lag/lead lengths match the script.
@@ -32,8 +32,6 @@ theorem promote_spec (a b : TermType) (ha : isVarKind a = true) (hb : isVarKind 
 
 example : promote .exogenous .endogenous = .endogenous ∧ promote .endogenous .exogenous = .endogenous ∧
     promote .variable .exogenous = .exogenous := by decide
-
-instance (a b : TermType) : Decidable (TypeLe a b) := by unfold TypeLe; infer_instance
 
 theorem typeLe_of_endogenous {c : TermType} : TypeLe .endogenous c → c = .endogenous := by
   cases c <;> decide
@@ -227,6 +225,110 @@ theorem classify_rejects {S : List Stmt} (w1 : WellIndexed S) (w2 : NoFunctionCl
       · have a := (hS c hc).codeAll s1 m1 c1 hc1
         have b := (hS c hc).codeAll s2 m2 c2 hc2
         rw [a] at b; exact hne (Option.some.inj b)
+
+/-- **Which error.**  Under the guards a rejected script raises one of the parser's own two errors — SymbolError
+    together with a kind conflict, or ParserError together with a double definition. -/
+theorem rejection_class {S : List Stmt} {e : Err} (h : parseModel S = .error e)
+    (w1 : WellIndexed S) (w2 : NoFunctionClash S) :
+    (e = .symbolError ∧ KindConflict S) ∨ (e = .parserError ∧ DoubleDef S) :=
+  parseModel_error_class h w1 w2
+
+/-- A script is accepted exactly when it has neither defect. -/
+theorem accepted_iff {S : List Stmt} (w1 : WellIndexed S) (w2 : NoFunctionClash S) :
+    (∃ syms, parseModel S = .ok syms) ↔ (¬ KindConflict S ∧ ¬ DoubleDef S) := by
+  constructor
+  · rintro ⟨syms, h⟩
+    constructor
+    · intro hk; obtain ⟨e, he⟩ := classify_rejects w1 w2 (Or.inl hk); rw [h] at he; cases he
+    · intro hd; obtain ⟨e, he⟩ := classify_rejects w1 w2 (Or.inr hd); rw [h] at he; cases he
+  · rintro ⟨hk, hd⟩
+    cases h : parseModel S with
+    | ok syms => exact ⟨syms, rfl⟩
+    | error e =>
+      rcases rejection_class h w1 w2 with ⟨_, h1⟩ | ⟨_, h1⟩
+      · exact absurd h1 hk
+      · exact absurd h1 hd
+
+/-- **rejects_symbolError.**  A name used as variable and as parameter/error (or as parameter and error), and no
+    double definition: the script is rejected with SymbolError. -/
+theorem rejects_symbolError {S : List Stmt} (w1 : WellIndexed S) (w2 : NoFunctionClash S)
+    (hk : KindConflict S) (hd : ¬ DoubleDef S) : parseModel S = .error .symbolError := by
+  obtain ⟨e, he⟩ := classify_rejects w1 w2 (Or.inl hk)
+  rcases rejection_class he w1 w2 with ⟨rfl, _⟩ | ⟨_, h1⟩
+  · exact he
+  · exact absurd h1 hd
+
+/-- **rejects_parserError.**  Two different equations for one name, and no kind conflict: rejected with ParserError. -/
+theorem rejects_parserError {S : List Stmt} (w1 : WellIndexed S) (w2 : NoFunctionClash S)
+    (hd : DoubleDef S) (hk : ¬ KindConflict S) : parseModel S = .error .parserError := by
+  obtain ⟨e, he⟩ := classify_rejects w1 w2 (Or.inr hd)
+  rcases rejection_class he w1 w2 with ⟨_, h1⟩ | ⟨rfl, _⟩
+  · exact absurd h1 hk
+  · exact he
+
+theorem scriptOcc_append (S T : List Stmt) : scriptOcc (S ++ T) = scriptOcc S ++ scriptOcc T := by
+  simp [scriptOcc, List.flatMap_append]
+
+/-- **identical_duplicates_accepted.**  Repeating an equation statement that the script already contains changes
+    nothing: the script is still accepted, with the same named symbols in the same order (each name once). -/
+theorem identical_duplicates_accepted {S : List Stmt} {syms : List Symbol} {ts : List Parser.Term} {q c : String}
+    (h : parseModel S = .ok syms) (w1 : WellIndexed S) (w2 : NoFunctionClash S) (hdup : Stmt.eqn ts q c ∈ S) :
+    ∃ syms', parseModel (S ++ [.eqn ts q c]) = .ok syms' ∧
+      syms'.filter (fun s => s.name.isSome) = syms.filter (fun s => s.name.isSome) := by
+  have hmem : ∀ s, s ∈ scriptOcc (S ++ [.eqn ts q c]) ↔ s ∈ scriptOcc S := by
+    intro s; rw [scriptOcc_append]
+    constructor
+    · intro hs; rcases List.mem_append.1 hs with hs | hs
+      · exact hs
+      · simp only [scriptOcc, List.flatMap_cons, List.flatMap_nil, List.append_nil] at hs
+        exact stmtOcc_subset hdup s hs
+    · intro hs; exact List.mem_append_left _ hs
+  have w1' : WellIndexed (S ++ [.eqn ts q c]) := fun s hs => w1 s ((hmem s).1 hs)
+  have w2' : NoFunctionClash (S ++ [.eqn ts q c]) :=
+    fun s1 h1 s2 h2 => w2 s1 ((hmem s1).1 h1) s2 ((hmem s2).1 h2)
+  obtain ⟨hk, hd⟩ := (accepted_iff w1 w2).1 ⟨syms, h⟩
+  have hacc : ∃ syms', parseModel (S ++ [.eqn ts q c]) = .ok syms' := by
+    apply (accepted_iff w1' w2').2
+    constructor
+    · rintro ⟨s1, h1, s2, h2, r⟩; exact hk ⟨s1, (hmem s1).1 h1, s2, (hmem s2).1 h2, r⟩
+    · rintro ⟨s1, h1, s2, h2, r⟩; exact hd ⟨s1, (hmem s1).1 h1, s2, (hmem s2).1 h2, r⟩
+  obtain ⟨syms', h'⟩ := hacc
+  refine ⟨syms', h', ?_⟩
+  obtain ⟨D, V, rfl, hV, hkD, hS, _⟩ := accepted_char h w1 w2
+  obtain ⟨D', V', rfl, hV', hkD', hS', _⟩ := accepted_char h' w1' w2'
+  have named : ∀ (D V : List Symbol) (S : List Stmt), (∀ v ∈ V, v.name = none ∧ v.type = .verbatim) →
+      keys D = firstApp ((scriptOcc S).map (·.name)) →
+      (D ++ V).filter (fun s => s.name.isSome) = D := by
+    intro D V S hV hk
+    rw [List.filter_append]
+    have e1 : D.filter (fun s => s.name.isSome) = D := by
+      apply List.filter_eq_self.2
+      intro d hd
+      have : d.name ∈ keys D := List.mem_map_of_mem hd
+      rw [hk, mem_firstApp] at this
+      obtain ⟨s, hs, hsn⟩ := List.mem_map.1 this
+      obtain ⟨stmt, _, hso⟩ := List.mem_flatMap.1 hs
+      cases stmt with
+      | verb _ _ => simp [stmtOcc] at hso
+      | eqn ts' q' c' => rw [← hsn]; exact termSyms_name_some s hso
+    have e2 : V.filter (fun s => s.name.isSome) = [] := by
+      apply List.filter_eq_nil_iff.2
+      intro v hv; rw [(hV v hv).1]; simp
+    rw [e1, e2, List.append_nil]
+  rw [named D V S hV hkD, named D' V' _ hV' hkD']
+  have hkeys : keys D' = keys D := by
+    rw [hkD', hkD, scriptOcc_append, List.map_append, firstApp, List.foldl_append]
+    apply foldl_pushNew_of_mem
+    intro x hx
+    apply (mem_firstApp _ _).2
+    obtain ⟨s, hs, rfl⟩ := List.mem_map.1 hx
+    simp only [scriptOcc, List.flatMap_cons, List.flatMap_nil, List.append_nil] at hs
+    exact List.mem_map_of_mem (stmtOcc_subset hdup s hs)
+  apply list_eq_of_map_eq (fun s : Symbol => s.name) D' D hkeys
+  intro x hx y hy hxy
+  apply (hS' x hx).unique (hS y hy) _ hxy
+  intro s
+  simp only [List.mem_filter, hmem, hxy]
 
 /-- Which of the parser's own errors a single `combine` raises: SymbolError exactly for an unmergeable pair of kinds
     (it is the first check), ParserError only for two different equations / code strings. -/
